@@ -60,6 +60,14 @@
 (*               not parse again.                                          *)
 (*   jsonKeyCollision (dump) a dict with the keys 1 and '1' is written by  *)
 (*               json.dumps with the key "1" twice.                        *)
+(*   leftTuple   (dump) a tuple that nothing serialised (inside Any, or    *)
+(*               passed through by an Enum member) is written as a list    *)
+(*               and stays one: a Set[Any] of tuples does not parse again. *)
+(*   firstMatch  NOT a deviation from Ref, a marker: a Union member takes  *)
+(*               and changes a value that already is a normal form of a    *)
+(*               LATER member (first accepting member wins).  This is how  *)
+(*               a result can differ from its own re-parse (C10) without   *)
+(*               any of the deviations above.                              *)
 (*   leftObject / leftSet (dump) with serialize=True the Enum branch       *)
 (*               returns ANY foreign value unchanged instead of raising,   *)
 (*               so in a Union an Enum member written first wins and the   *)
@@ -213,14 +221,16 @@ IntCast(key) == IF key.k = "int" THEN key
 StrOfInt(key) == IF key.k = "int" THEN StrV(ToString(key.v))               \* str(k) when serialising Dict[int, ...]
                  ELSE IF key.k = "bool" THEN StrV(IF key.v THEN "True" ELSE "False")
                  ELSE IF key.k = "none" THEN StrV("None") ELSE key
-\* {cast(k): v for k, v in val.items()}: entries <<new key, value, index of the pair it came from>>
-RECURSIVE CastFold(_, _, _)
-CastFold(ps, i, acc) ==
+\* {cast(k): v for k, v in val.items()} (cast = str if serialize else int): entries <<new key, value, index of
+\* the pair it came from>>; of two pairs whose keys cast alike the later value stays, in the place of the first
+CastKey(key, ser) == IF ser THEN StrOfInt(key) ELSE IntCast(key)
+RECURSIVE CastFold(_, _, _, _)
+CastFold(ps, i, acc, ser) ==
   IF i > Len(ps) THEN acc
-  ELSE LET key == IntCast(ps[i][1]) IN
+  ELSE LET key == CastKey(ps[i][1], ser) IN
        CastFold(ps, i + 1, IF \E j \in 1..Len(acc) : acc[j][1] = key
                            THEN [j \in 1..Len(acc) |-> IF acc[j][1] = key THEN <<key, ps[i][2], i>> ELSE acc[j]]
-                           ELSE Append(acc, <<key, ps[i][2], i>>))
+                           ELSE Append(acc, <<key, ps[i][2], i>>), ser)
 
 (***************************************************************************)
 (* Ref layer                                                               *)
@@ -347,41 +357,50 @@ Listing(t, val) == IF t.k # "set" /\ val.k = "set" /\ Cardinality(val.v) > 1 THE
 DevsOf(rs, len) == LET f == FirstFail(rs, len) IN UNION {rs[n].dev : n \in {n \in 1..len : f = 0 \/ n <= f}}
 Rebuild(val, elems) == IF val.k \in {"list", "tuple"} THEN [k |-> val.k, v |-> elems] ELSE val      \* members of a set cannot change
 
-RECURSIVE AlgAdapt(_, _, _, _), AlgUnionLoop(_, _, _, _, _, _)
-\* adapt_typehints:731-1105.  val: the value; orig: orig_val of _check_type; top: val is the whole argument
-AlgAdapt(t, val, orig, top) ==
+RECURSIVE AlgAdapt(_, _, _, _, _), AlgUnionLoop(_, _, _, _, _, _, _)
+\* adapt_typehints:731-1105.  val: the value; orig: orig_val of _check_type; top: val is the whole argument;
+\* ser: serialize=True (the same function writes the config representation for dump)
+AlgAdapt(t, val, orig, top, ser) ==
   CASE t.k = "any" ->                                                                    \* :762-769
-         IF val.k = "enum" THEN Ok(val, {}, val) ELSE IF IsStr(val) THEN Ok(LoadSimple(val.v), {}, val) ELSE Ok(val, {}, val)
+         IF val.k = "enum" THEN Ok(IF ser THEN StrV(val.v[2]) ELSE val, {}, val)         \* adapt(val, type(val)): the Enum branch
+         ELSE IF IsStr(val) THEN Ok(LoadSimple(val.v), {}, val) ELSE Ok(val, {}, val)    \* what is INSIDE a container is left alone
     [] t.k = "literal" ->                                                                \* :772-777
          LET mem(x) == \E i \in 1..Len(t.v) : PyEq(x, t.v[i])                            \* `val in subtypehints` uses ==
              kinds  == LitKindSeq(t.v, 1, << >>)
              r1 == IF ~mem(val) /\ IsStr(val)
                    THEN IF Len(kinds) = 0 THEN Er({}, val)                               \* Union[()] raises TypeError
-                        ELSE IF Len(kinds) = 1 THEN AlgAdapt(kinds[1], val, orig, top)
-                        ELSE AlgAdapt(UnionT(kinds), val, orig, top)
+                        ELSE IF Len(kinds) = 1 THEN AlgAdapt(kinds[1], val, orig, top, ser)
+                        ELSE AlgAdapt(UnionT(kinds), val, orig, top, ser)
                    ELSE Ok(val, {}, val)
          IN IF ~r1.ok THEN r1
             ELSE IF mem(r1.v) THEN Ok(r1.v, r1.dev \cup (IF r1.v \in LitMembers(t) THEN {} ELSE {"litEq"}), val)
             ELSE Er(r1.dev, val)
     [] t.k \in LeafKinds ->                                                              \* :780-787
-         LET v1 == IF IsStr(val) /\ t.k # "str" THEN LeafLoad(val.v) ELSE val
+         LET v1 == IF IsStr(val) /\ t.k # "str" THEN LeafLoad(val.v) ELSE val             \* also when serialising
              v2 == IF t.k = "float" /\ v1.k = "int" THEN FloatV(v1.v, 1) ELSE v1         \* isinstance(val, int) and not bool
-         IN IF ~IsInstance(t.k, v2) \/ (t.k \in {"int", "float"} /\ v2.k = "bool") THEN Er({}, val) ELSE Ok(v2, {}, val)
+         IN IF ~IsInstance(t.k, v2) \/ (t.k \in {"int", "float"} /\ v2.k = "bool") THEN Er({}, val)
+            ELSE Ok(v2, IF ser /\ IsStr(val) /\ t.k # "str" THEN {"serLenient"} ELSE {}, val)
     [] t.k = "enum" ->                                                                   \* :808-818 (by member NAME)
-         IF val.k = "enum" /\ val.v[1] = EnumCls(t) THEN Ok(val, {}, val)
+         IF ser THEN (IF val.k = "enum" /\ val.v[1] = EnumCls(t) THEN Ok(StrV(val.v[2]), {}, val)
+                      ELSE Ok(val, {}, val))          \* :809-811  anything else is returned as it is -- never raises
+         ELSE IF val.k = "enum" /\ val.v[1] = EnumCls(t) THEN Ok(val, {}, val)
          ELSE IF val.k = "str" /\ val.v \in EnumMembers(EnumCls(t)) THEN Ok(EnumV(EnumCls(t), val.v), {}, val)
          ELSE Er({}, val)
     [] t.k = "union" ->                                                                  \* :833-847
-         AlgUnionLoop(SortUnion(t.v, val), 1, val, orig, top, [good |-> FALSE, last |-> "none", dev |-> {}])
+         AlgUnionLoop(SortUnion(t.v, val), 1, val, orig, top, ser, [good |-> FALSE, last |-> "none", dev |-> {}])
     [] t.k \in {"tuple", "tupleE", "set"} ->                                             \* :850-863
          IF ~IsSeqLike(val) THEN Er({}, val)
          ELSE LET s == AsSeq(val) IN                                                     \* val = list(val): always a copy
               IF t.k = "tuple" /\ Len(s) # Len(t.v) THEN Er({}, val)
-              ELSE LET rs == [n \in 1..Len(s) |-> AlgAdapt(ElemT(t, n), s[n], orig, FALSE)]
+              ELSE LET rs == [n \in 1..Len(s) |-> AlgAdapt(ElemT(t, n), s[n], orig, FALSE, ser)]
                        vs == [n \in 1..Len(s) |-> rs[n].v]
                        dv == DevsOf(rs, Len(s)) \cup Listing(t, val)
                        mm == Rebuild(val, ElemsAfter(s, rs, FALSE))
                    IN IF FirstFail(rs, Len(s)) # 0 THEN Er(dv, mm)
+                      ELSE IF ser                                                        \* :862 `if not serialize`: stays a list;
+                           THEN (IF t.k = "set"                                          \* distinct members may be written alike
+                                 THEN Ok(BagV(BagOf(vs)), dv \cup (IF Cardinality(Range(vs)) < Len(vs) THEN {"serCollision"} ELSE {}), mm)
+                                 ELSE Ok(ListV(vs), dv, mm))
                       ELSE IF t.k = "set" THEN (IF \E n \in 1..Len(s) : ~Hashable(vs[n]) THEN Er(dv, mm)   \* set(val): TypeError
                                                 ELSE Ok(SetV(KeepFirst(vs, 1, {})), dv, mm))
                       ELSE Ok(TupleV(vs), dv, mm)
@@ -390,7 +409,7 @@ AlgAdapt(t, val, orig, top) ==
          ELSE LET s == AsSeq(val)                                                        \* a tuple / set is copied (:888-889),
                   inplace == val.k = "list"                                              \* a list is converted IN PLACE (:899)
               IN IF Len(t.v) = 0 THEN Ok(ListV(s), Listing(t, val), val)
-                 ELSE LET rs == [n \in 1..Len(s) |-> AlgAdapt(t.v[1], s[n], orig, FALSE)]
+                 ELSE LET rs == [n \in 1..Len(s) |-> AlgAdapt(t.v[1], s[n], orig, FALSE, ser)]
                           mm == Rebuild(val, ElemsAfter(s, rs, inplace))
                       IN IF FirstFail(rs, Len(s)) # 0 THEN Er(DevsOf(rs, Len(s)) \cup Listing(t, val), mm)
                          ELSE Ok(ListV([n \in 1..Len(s) |-> rs[n].v]), DevsOf(rs, Len(s)) \cup Listing(t, val), mm)
@@ -399,11 +418,12 @@ AlgAdapt(t, val, orig, top) ==
          ELSE IF Len(t.v) = 0 THEN Ok(val, {}, val)
          ELSE LET kt == t.v[1]
                   ps == val.v
-                  kd == IF \E n \in 1..Len(ps) : ~KeyAcc(kt, ps[n][1]) THEN {"dictKey"} ELSE {}
+                  kd == IF ser THEN (IF kt.k = "int" /\ \E n \in 1..Len(ps) : ps[n][1].k # "int" THEN {"serLenient"} ELSE {})   \* str(k) never fails
+                        ELSE IF \E n \in 1..Len(ps) : ~KeyAcc(kt, ps[n][1]) THEN {"dictKey"} ELSE {}
               IN IF kt.k = "int"
-                 THEN IF \E n \in 1..Len(ps) : IntCast(ps[n][1]) = FailV THEN Er({}, val)          \* int(k) raises
-                      ELSE LET np == CastFold(ps, 1, << >>)                                        \* a NEW dict: {int(k): v ...}
-                               rs == [n \in 1..Len(np) |-> AlgAdapt(t.v[2], np[n][2], orig, FALSE)]
+                 THEN IF \E n \in 1..Len(ps) : CastKey(ps[n][1], ser) = FailV THEN Er({}, val)     \* int(k) raises
+                      ELSE LET np == CastFold(ps, 1, << >>, ser)                                   \* a NEW dict: {cast(k): v ...}
+                               rs == [n \in 1..Len(np) |-> AlgAdapt(t.v[2], np[n][2], orig, FALSE, ser)]
                                f  == FirstFail(rs, Len(np))
                                \* the original dict keeps its slots; the values themselves may have been converted inside
                                mm == DictV([j \in 1..Len(ps) |->
@@ -411,7 +431,7 @@ AlgAdapt(t, val, orig, top) ==
                                         THEN <<ps[j][1], rs[CHOOSE n \in 1..Len(np) : np[n][3] = j].m>> ELSE ps[j]])
                            IN IF f # 0 THEN Er(kd \cup DevsOf(rs, Len(np)), mm)
                               ELSE Ok(DictV([n \in 1..Len(np) |-> <<np[n][1], rs[n].v>>]), kd \cup DevsOf(rs, Len(np)), mm)
-                 ELSE LET rs == [n \in 1..Len(ps) |-> AlgAdapt(t.v[2], ps[n][2], orig, FALSE)]     \* val[k] = ... IN PLACE
+                 ELSE LET rs == [n \in 1..Len(ps) |-> AlgAdapt(t.v[2], ps[n][2], orig, FALSE, ser)]     \* val[k] = ... IN PLACE
                           vals == ElemsAfter([n \in 1..Len(ps) |-> ps[n][2]], rs, TRUE)
                           mm == DictV([n \in 1..Len(ps) |-> <<ps[n][1], vals[n]>>])
                       IN IF FirstFail(rs, Len(ps)) # 0 THEN Er(kd \cup DevsOf(rs, Len(ps)), mm)
@@ -419,17 +439,20 @@ AlgAdapt(t, val, orig, top) ==
 
 \* the trial loop :836-847.  st.last is vals[-1] ("exc" an exception, "orig" the orig_val fall-back),
 \* st.good = not all(isinstance(v, Exception) for v in vals).  Every member is tried on the SAME object.
-AlgUnionLoop(ts, i, val, orig, top, st) ==
+AlgUnionLoop(ts, i, val, orig, top, ser, st) ==
   IF i > Len(ts)
   THEN IF ~st.good THEN Er(st.dev, val)                                                  \* raise_union_unexpected_value
        ELSE IF st.last = "exc" THEN Ok(ExcV, st.dev \cup {"excLeak"}, val)               \* val = vals[-1]: an exception object
        ELSE Ok(orig, st.dev \cup (IF top THEN {} ELSE {"origNested"}), val)              \* val = vals[-1]: the original text
-  ELSE LET r  == AlgAdapt(ts[i], val, orig, top)
+  ELSE LET r  == AlgAdapt(ts[i], val, orig, top, ser)
            dv == st.dev \cup r.dev \cup (IF ~r.ok /\ r.m # val /\ i < Len(ts) THEN {"inPlace"} ELSE {})   \* the next member gets a changed object
-       IN IF r.ok THEN Ok(r.v, st.dev \cup r.dev, r.m)                                   \* vals.append(...); break
+           \* the first member that accepts wins, also when the value already is a normal form of a LATER member and
+           \* this one changes it (a marker, not a deviation from Ref: Ref allows any member's normal form)
+           fm == IF ~ser /\ r.ok /\ r.v # val /\ \E j \in (i + 1)..Len(ts) : Conforms(ts[j], val) THEN {"firstMatch"} ELSE {}
+       IN IF r.ok THEN Ok(r.v, st.dev \cup r.dev \cup fm, r.m)                           \* vals.append(...); break
           ELSE IF ts[i].k = "str" /\ ~IsStr(val) /\ IsStr(orig)                          \* :841-843
-               THEN AlgUnionLoop(ts, i + 1, r.m, orig, top, [good |-> TRUE, last |-> "orig", dev |-> dv])
-               ELSE AlgUnionLoop(ts, i + 1, r.m, orig, top, [good |-> st.good, last |-> "exc", dev |-> dv])
+               THEN AlgUnionLoop(ts, i + 1, r.m, orig, top, ser, [good |-> TRUE, last |-> "orig", dev |-> dv])
+               ELSE AlgUnionLoop(ts, i + 1, r.m, orig, top, ser, [good |-> st.good, last |-> "exc", dev |-> dv])
 
 \* ActionTypeHint._is_valid_string:613-617
 ValidString(t, x) == IsStr(x) /\ (t.k = "str" \/ (t.k = "union" /\ StrT \in Range(t.v)))
@@ -438,10 +461,10 @@ ValidString(t, x) == IsStr(x) /\ (t.k = "str" \/ (t.k = "union" /\ StrT \in Rang
 \* retry with the original string passes default=
 AlgCheckType(t, x, dflt) ==
   LET loaded == IF IsStr(x) THEN LoadTop(x.v) ELSE x                                     \* parse_value_or_config :563
-      r1 == AlgAdapt(t, loaded, x, TRUE)                                                 \* :582
+      r1 == AlgAdapt(t, loaded, x, TRUE, FALSE)                                               \* :582
   IN IF r1.ok THEN r1
      ELSE IF IsStr(x)                                                                    \* :588-591 retry with orig_val
-          THEN LET r2 == IF dflt # NoneV /\ PyEq(x, dflt) THEN Ok(x, {}, x) ELSE AlgAdapt(t, x, x, TRUE)
+          THEN LET r2 == IF dflt # NoneV /\ PyEq(x, dflt) THEN Ok(x, {}, x) ELSE AlgAdapt(t, x, x, TRUE, FALSE)
                IN IF r2.ok THEN r2
                   ELSE IF ValidString(t, loaded) THEN Ok(loaded, {}, x) ELSE Er(r1.dev, x)   \* :604-606
           ELSE Er(r1.dev, r1.m)
@@ -461,42 +484,12 @@ AlgParse(t, x, dflt) ==
             ELSE LET r3 == AlgCheckType(t, r2.v, dflt) IN
                  IF r3.ok THEN Ok(r2.v, r1.dev \cup r2.dev \cup r3.dev, r1.m) ELSE Er(r1.dev \cup r2.dev \cup r3.dev, r1.m)
 
-\* adapt_typehints(..., serialize=True): the config representation that dump writes (ActionTypeHint.serialize:497-519).
+\* adapt_typehints(..., serialize=True) as called by ActionTypeHint.serialize:497-519 (no orig_val): the config
+\* representation that dump writes.
 \* PlainFloatTexts: strings of the vocabulary that yaml.safe_dump writes WITHOUT quotes although the loader of
 \* _loaders_dumpers.py:66-79 reads them as floats (the C01 finding; here it breaks dump o parse o dump).
 PlainFloatTexts == {"1e3"}
-RECURSIVE AlgSer(_, _), AlgSerUnion(_, _, _)
-AlgSer(t, val) ==
-  CASE t.k = "any" -> IF val.k = "enum" THEN Ok(StrV(val.v[2]), {}, val) ELSE IF IsStr(val) THEN Ok(LoadSimple(val.v), {}, val) ELSE Ok(val, {}, val)
-    [] t.k = "literal" -> IF \E i \in 1..Len(t.v) : PyEq(val, t.v[i]) THEN Ok(val, {}, val) ELSE Er({}, val)
-    [] t.k \in LeafKinds -> LET r == AlgAdapt(t, val, NoneV, TRUE)                         \* a string is LOADED here too (:781-783)
-                            IN IF r.ok /\ IsStr(val) /\ t.k # "str" THEN Ok(r.v, {"serLenient"}, val) ELSE r
-    [] t.k = "enum" -> IF val.k = "enum" /\ val.v[1] = EnumCls(t) THEN Ok(StrV(val.v[2]), {}, val)
-                       ELSE Ok(val, {}, val)          \* :809-811  anything else is returned as it is -- this branch never raises
-    [] t.k = "union" -> AlgSerUnion(SortUnion(t.v, val), 1, val)
-    [] t.k \in {"tuple", "tupleE", "set", "list"} ->                                     \* :850-899 with serialize=True: stays a list
-         IF ~IsSeqLike(val) THEN Er({}, val)
-         ELSE LET s == AsSeq(val) IN
-              IF t.k = "tuple" /\ Len(s) # Len(t.v) THEN Er({}, val)
-              ELSE IF Len(t.v) = 0 THEN Ok(ListV(s), {}, val)
-              ELSE LET rs == [n \in 1..Len(s) |-> AlgSer(ElemT(t, n), s[n])]
-                       vs == [n \in 1..Len(s) |-> rs[n].v]
-                       dv == UNION {rs[n].dev : n \in 1..Len(s)}
-                   IN IF \E n \in 1..Len(s) : ~rs[n].ok THEN Er({}, val)
-                      ELSE IF t.k = "set"                                                \* distinct members may be written alike
-                           THEN Ok(BagV(BagOf(vs)), dv \cup (IF Cardinality(Range(vs)) < Len(vs) THEN {"serCollision"} ELSE {}), val)
-                           ELSE Ok(ListV(vs), dv \cup Listing(t, val), val)
-    [] t.k = "dict" ->
-         IF val.k # "dict" THEN Er({}, val)
-         ELSE IF Len(t.v) = 0 THEN Ok(val, {}, val)
-         ELSE LET ps == val.v
-                  rs == [n \in 1..Len(ps) |-> AlgSer(t.v[2], ps[n][2])]
-                  cast(key) == IF t.v[1].k = "int" THEN StrOfInt(key) ELSE key            \* cast = str if serialize
-                  kd == IF t.v[1].k = "int" /\ \E n \in 1..Len(ps) : ps[n][1].k # "int" THEN {"serLenient"} ELSE {}   \* str(k) never fails
-              IN IF \E n \in 1..Len(ps) : ~rs[n].ok THEN Er({}, val)
-                 ELSE Ok(DictV([n \in 1..Len(ps) |-> <<cast(ps[n][1]), rs[n].v>>]), kd \cup UNION {rs[n].dev : n \in 1..Len(ps)}, val)
-AlgSerUnion(ts, i, val) == IF i > Len(ts) THEN Er({}, val)
-                           ELSE LET r == AlgSer(ts[i], val) IN IF r.ok THEN r ELSE AlgSerUnion(ts, i + 1, val)
+AlgSer(t, val) == AlgAdapt(t, val, NoneV, TRUE, TRUE)
 \* what the dumpers make of the tree that serialisation produced
 RECURSIVE Leaves(_)
 Leaves(y) == CASE y.k \in {"list", "tuple"} -> UNION {Leaves(y.v[n]) : n \in 1..Len(y.v)}
@@ -510,15 +503,23 @@ JsonKeyClash(y) == CASE y.k \in {"list", "tuple"} -> \E n \in 1..Len(y.v) : Json
                      [] y.k = "dict" -> (\E a, b \in 1..Len(y.v) : y.v[a][1].k = "int" /\ y.v[b][1] = StrOfInt(y.v[a][1]))
                                         \/ \E n \in 1..Len(y.v) : JsonKeyClash(y.v[n][2])
                      [] OTHER -> FALSE
+RECURSIVE HasTuple(_)
+HasTuple(y) == CASE y.k = "tuple" -> TRUE
+                 [] y.k = "list" -> \E n \in 1..Len(y.v) : HasTuple(y.v[n])
+                 [] y.k = "set"  -> \E e \in y.v : HasTuple(e)
+                 [] y.k = "bag"  -> \E e \in DOMAIN y.v : HasTuple(e)
+                 [] y.k = "dict" -> \E n \in 1..Len(y.v) : HasTuple(y.v[n][2])
+                 [] OTHER -> FALSE
 TreeDevs(y) == (IF \E l \in Leaves(y) : IsStr(l) /\ l.v \in PlainFloatTexts THEN {"yamlFloatStr"} ELSE {})
           \cup (IF \E l \in Leaves(y) : l.k \in {"enum", "exc"} THEN {"leftObject"} ELSE {})      \* neither dumper can write it
           \cup (IF \E l \in Leaves(y) : l.k = "set" THEN {"leftSet"} ELSE {})                      \* json cannot write it
           \cup (IF JsonKeyClash(y) THEN {"jsonKeyCollision"} ELSE {})
+          \cup (IF HasTuple(y) THEN {"leftTuple"} ELSE {})                                         \* written as a list, read back as a list
 AlgDump(t, val) == LET s == AlgSer(t, val) IN IF s.ok THEN Ok(s.v, s.dev \cup TreeDevs(s.v), val) ELSE s
-\* the tree as a loader returns it: every set that was written is a list again (in SOME order)
+\* the tree as a loader returns it: every set (and tuple) that was written is a list again (a set in SOME order)
 RECURSIVE Unbag(_)
 Unbag(y) == CASE y.k = "bag" -> ListV([n \in 1..Len(AsSeq(y)) |-> Unbag(AsSeq(y)[n])])
-              [] y.k \in {"list", "tuple"} -> [k |-> y.k, v |-> [n \in 1..Len(y.v) |-> Unbag(y.v[n])]]
+              [] y.k \in {"list", "tuple"} -> ListV([n \in 1..Len(y.v) |-> Unbag(y.v[n])])
               [] y.k = "dict" -> DictV([n \in 1..Len(y.v) |-> <<y.v[n][1], Unbag(y.v[n][2])>>])
               [] OTHER -> y
 
@@ -535,15 +536,16 @@ RefPermInvariant(t, x) == \A p \in AllPerms(t) : Accepts(p, x) = Accepts(t, x) /
 
 \* C02 for the algorithm: outside the named deviations it accepts exactly what Ref accepts and returns one of
 \* Ref's normal forms.  (a is AlgParse(t, x, NoneV); passed in so that a check evaluates it once)
+Devs(a) == a.dev \ {"firstMatch"}            \* firstMatch marks a choice that Ref allows, it is not a deviation from Ref
 AlgRefinesRefA(t, x, a) ==
-  a.dev = {} => /\ a.ok = Accepts(t, x)
-                /\ a.ok => (a.v \in TopResults(t, x) /\ ConformsTop(t, a.v))
+  Devs(a) = {} => /\ a.ok = Accepts(t, x)
+                  /\ a.ok => (a.v \in TopResults(t, x) /\ ConformsTop(t, a.v))
 AlgPermInvariantA(t, x, a) ==
-  \A p \in AllPerms(t) : LET b == AlgParse(p, x, NoneV) IN (a.dev = {} /\ b.dev = {}) => a.ok = b.ok
+  \A p \in AllPerms(t) : LET b == AlgParse(p, x, NoneV) IN (Devs(a) = {} /\ Devs(b) = {}) => a.ok = b.ok
 \* the deviations stay inside their description
 DevsAsDescribedA(t, x, a) ==
   /\ "excLeak" \in a.dev => ~a.ok                                                         \* a leaked exception is always caught by validation
-  /\ (a.dev # {} /\ a.dev \subseteq {"litEq", "dictKey", "origNested"} /\ ~a.ok) => ~Accepts(t, x)   \* these three only ever accept more
+  /\ (Devs(a) # {} /\ Devs(a) \subseteq {"litEq", "dictKey", "origNested"} /\ ~a.ok) => ~Accepts(t, x)   \* these three only ever accept more
 
 \* C10: a result is a fixed point of the parse, and its config representation is a fixed point of dump o parse
 \* (a re-parse that runs into one of the named deviations is that deviation's business)
